@@ -159,7 +159,7 @@ theorem Cauchy_cdf_deriv_spec (d : Gen.Cauchy R) (x : ℝ) (hs : 0 < d.scale.val
 /- Full statement (FALSE on `R` outside the window below, because `Gen.log1pexp` — misc/func.rs — switches to the
    approximations `exp z` for z ≤ -37 and is not exactly `log (1 + exp z)` there; and at x = loc the generated
    `ln_f` evaluates `ln 0`):
-     theorem Cauchy_cdf_deriv (hs : 0 < scale) :
+     Cauchy_cdf_deriv (hs : 0 < scale) :
        HasDerivAt (fun t => (cdf_real d ⟨t⟩).val) (exp (ln_f_real d ⟨x⟩).val) x                              -/
 -- @site Cauchy.cdf_real
 /-- cdf' = exp(ln_f) wherever `log1pexp` is exact: e⁻¹⁸ ≤ |x - loc| / scale ≤ e¹⁸ -/
@@ -731,6 +731,74 @@ theorem Gev_cdf_tendsto_bot_shape0 (d : Gen.Gev R) (hσ : 0 < d.scale.val) (hs :
   have h2 := Real.tendsto_exp_neg_atTop_nhds_zero.comp h1
   simpa [Function.comp_def] using h2
 
+/-! ### Gev, shape ≠ 0: limits at the ends of the support -/
+
+-- @site Gev.cdf_real
+/-- shape > 0 (Fréchet type): cdf → 1 at +∞ -/
+theorem Gev_cdf_tendsto_top_shape_pos (d : Gen.Gev R) (hσ : 0 < d.scale.val) (hs : 0 < d.shape.val) :
+    Tendsto (fun t : ℝ => (Gen.Gev.cdf_real d ⟨t⟩).val) atTop (𝓝 1) := by
+  simp only [Gev_cdf_eq1 d _ hs.ne']
+  have hw : Tendsto (fun t : ℝ => 1 + d.shape.val * (t - d.loc.val) / d.scale.val) atTop atTop :=
+    tendsto_atTop_add_const_left atTop 1
+      (((tendsto_atTop_add_const_right atTop (-d.loc.val) tendsto_id).const_mul_atTop hs).atTop_div_const hσ)
+  have hp : Tendsto (fun t : ℝ => (1 + d.shape.val * (t - d.loc.val) / d.scale.val) ^ (-1 / d.shape.val))
+      atTop (𝓝 0) := by
+    have := (tendsto_rpow_neg_atTop (y := 1 / d.shape.val) (by positivity)).comp hw
+    simpa only [Function.comp_def, neg_div] using this
+  have := (Real.continuous_exp.tendsto _).comp hp.neg
+  simpa [Function.comp_def] using this
+
+-- @site Gev.cdf_real
+/-- shape > 0: cdf → 0 at the lower end `loc - scale/shape` of the support (from inside) -/
+theorem Gev_cdf_tendsto_bot_shape_pos (d : Gen.Gev R) (hσ : 0 < d.scale.val) (hs : 0 < d.shape.val) :
+    Tendsto (fun t : ℝ => (Gen.Gev.cdf_real d ⟨t⟩).val) (𝓝[>] (d.loc.val - d.scale.val / d.shape.val)) (𝓝 0) := by
+  simp only [Gev_cdf_eq1 d _ hs.ne']
+  set lo : ℝ := d.loc.val - d.scale.val / d.shape.val with hlo
+  have hc : Continuous (fun t : ℝ => 1 + d.shape.val * (t - d.loc.val) / d.scale.val) := by fun_prop
+  have h0 : 1 + d.shape.val * (lo - d.loc.val) / d.scale.val = 0 := by
+    simp only [hlo]; field_simp; ring
+  have hw : Tendsto (fun t : ℝ => 1 + d.shape.val * (t - d.loc.val) / d.scale.val) (𝓝[>] lo) (𝓝[>] 0) := by
+    refine tendsto_nhdsWithin_iff.mpr ⟨?_, ?_⟩
+    · have := (hc.tendsto lo).mono_left (nhdsWithin_le_nhds (s := Set.Ioi lo))
+      rwa [h0] at this
+    · filter_upwards [self_mem_nhdsWithin] with t ht
+      have ht' : lo < t := ht
+      have : 0 < d.shape.val * (t - lo) / d.scale.val := by
+        apply div_pos (mul_pos hs (by linarith)) hσ
+      have e : 1 + d.shape.val * (t - d.loc.val) / d.scale.val = d.shape.val * (t - lo) / d.scale.val := by
+        simp only [hlo]; field_simp; ring
+      rw [Set.mem_Ioi, e]; exact this
+  have hp := (tendsto_rpow_neg_nhdsGT_zero (y := -1 / d.shape.val)
+    (by rw [neg_div]; exact neg_neg_of_pos (by positivity))).comp hw
+  have := Real.tendsto_exp_neg_atTop_nhds_zero.comp hp
+  simpa [Function.comp_def] using this
+
+-- @site Gev.cdf_real
+/-- shape < 0 (Weibull type): cdf → 0 at -∞ -/
+theorem Gev_cdf_tendsto_bot_shape_neg (d : Gen.Gev R) (hσ : 0 < d.scale.val) (hs : d.shape.val < 0) :
+    Tendsto (fun t : ℝ => (Gen.Gev.cdf_real d ⟨t⟩).val) atBot (𝓝 0) := by
+  simp only [Gev_cdf_eq1 d _ hs.ne]
+  have hw : Tendsto (fun t : ℝ => 1 + d.shape.val * (t - d.loc.val) / d.scale.val) atBot atTop :=
+    tendsto_atTop_add_const_left atBot 1
+      (((tendsto_atBot_add_const_right atBot (-d.loc.val) tendsto_id).const_mul_atBot_of_neg hs).atTop_div_const hσ)
+  have hpos : 0 < -1 / d.shape.val := div_pos_of_neg_of_neg (by norm_num) hs
+  have hp := (tendsto_rpow_atTop hpos).comp hw
+  have := Real.tendsto_exp_neg_atTop_nhds_zero.comp hp
+  simpa [Function.comp_def] using this
+
+-- @site Gev.cdf_real
+/-- shape < 0: cdf = 1 at the upper end `loc - scale/shape` of the support -/
+theorem Gev_cdf_top_shape_neg (d : Gen.Gev R) (hσ : 0 < d.scale.val) (hs : d.shape.val < 0) :
+    (Gen.Gev.cdf_real d ⟨d.loc.val - d.scale.val / d.shape.val⟩).val = 1 := by
+  rw [Gev_cdf_eq1 d _ hs.ne]
+  have h0 : 1 + d.shape.val * (d.loc.val - d.scale.val / d.shape.val - d.loc.val) / d.scale.val = 0 := by
+    have := hs.ne; field_simp; ring
+  have hpos : 0 < -1 / d.shape.val := div_pos_of_neg_of_neg (by norm_num) hs
+  rw [h0, Real.zero_rpow hpos.ne', neg_zero, Real.exp_zero]
+
+example : (0:ℝ) < (⟨⟨1⟩, ⟨2⟩, ⟨-1/2⟩⟩ : Gen.Gev R).scale.val ∧ (⟨⟨1⟩, ⟨2⟩, ⟨-1/2⟩⟩ : Gen.Gev R).shape.val < 0 := by
+  constructor <;> norm_num
+
 -- @site Gev.sf_real
 theorem Gev_sf (d : Gen.Gev R) (x : R) : (Gen.Gev.sf_real d x).val = 1 - (Gen.Gev.cdf_real d x).val := by
   simp only [Gen.Gev.sf_real, R.sub_val, one_val]
@@ -799,6 +867,10 @@ end C03
 #print axioms C03.Gev_cdf_mono_shape_ne0
 #print axioms C03.Gev_cdf_tendsto_top_shape0
 #print axioms C03.Gev_cdf_tendsto_bot_shape0
+#print axioms C03.Gev_cdf_tendsto_top_shape_pos
+#print axioms C03.Gev_cdf_tendsto_bot_shape_pos
+#print axioms C03.Gev_cdf_tendsto_bot_shape_neg
+#print axioms C03.Gev_cdf_top_shape_neg
 #print axioms C03.Gev_sf
 #print axioms C03.Gaussian_sf
 #print axioms C03.LogNormal_sf
